@@ -83,6 +83,13 @@ class ModuleInfo:
 
 
 class Index:
+    def _nf(self, node):
+        """function node in normal form (sa/normalise.py)"""
+        try:
+            return self.repo.normaliser.expand(node)
+        except Exception:
+            return node
+
     def __init__(self, repo: Repo, sub: str = 'dashlive') -> None:
         self.repo = repo
         self.modules: dict[str, ModuleInfo] = {}
@@ -119,7 +126,7 @@ class Index:
 
     def _load_stmt(self, m: ModuleInfo, n: ast.stmt) -> None:
         if isinstance(n, (ast.FunctionDef, ast.AsyncFunctionDef)):
-            f = FuncInfo(f'{m.name}.{n.name}', m.rel, n, None, m)
+            f = FuncInfo(f'{m.name}.{n.name}', m.rel, self._nf(n), None, m)
             m.functions[n.name] = f
             self.functions[f.qual] = f
         elif isinstance(n, ast.ClassDef):
@@ -129,7 +136,7 @@ class Index:
             self.classes[c.qual] = c
             for b in n.body:
                 if isinstance(b, (ast.FunctionDef, ast.AsyncFunctionDef)):
-                    f = FuncInfo(f'{c.qual}.{b.name}', m.rel, b, c, m)
+                    f = FuncInfo(f'{c.qual}.{b.name}', m.rel, self._nf(b), c, m)
                     c.methods[b.name] = f
                     self.functions[f.qual] = f
                     self.methods_by_name.setdefault(b.name, []).append(f)
